@@ -54,6 +54,8 @@ type dgram struct {
 	Dp  string `json:"dp"`
 	Pl  string `json:"pl"`
 	Tr  string `json:"tr"`
+	// servers: class of the burst of concurrent traffic that precedes the datagram
+	Bu string `json:"bu"`
 }
 
 type field struct {
@@ -71,6 +73,16 @@ type acase struct {
 	Rs   []dgram  `json:"rs"`
 	Out  string   `json:"out"`
 	Site string   `json:"site"`
+	// clients: InterleavedMode ("yes": the case is the history Hs on one client value)
+	Il string   `json:"il"`
+	Hs []hentry `json:"hs"`
+}
+
+// one exchange of a client history (Robust.tla HEntry); the harness uses X only
+type hentry struct {
+	X string `json:"x"`
+	Q string `json:"q"`
+	R string `json:"r"`
 }
 
 // session is what an NTS key exchange leaves with the party that crafts packets.
